@@ -489,7 +489,7 @@ fn check_full_expr(env: &Env, e: &Expr, in_condition: bool, ex: &Excl) -> Option
             {
                 hit = Some("nested_assign_to_16bit");
             }
-            Expr::Assign(Some(BinOp::Shl | BinOp::Shr), LValue::Var(n), _)
+            Expr::Assign(Some(BinOp::Shl | BinOp::Shr), LValue::Var(n) | LValue::Index(n, _), _)
                 if ex.has("rmw_shift16_splitport")
                     && env.locals.get(n).is_none()
                     && env
